@@ -3168,6 +3168,7 @@ impl Interpreter {
 
             // Check if we need to throw an exception (generator.throw())
             let throw_value = gen_state.borrow_mut().throw_value.take();
+            let return_value = gen_state.borrow_mut().return_value.take();
             if let Some(exception) = throw_value {
                 // Inject the exception - if there's a handler, it will jump to catch
                 // If no handler, the exception will propagate
@@ -3179,6 +3180,14 @@ impl Interpreter {
                     return Err(JsError::ThrownValue { guarded });
                 }
                 // Handler found - continue to run the VM which will execute the catch block
+            } else if let Some(value) = return_value {
+                // generator.return(value): a `return value` executed at the point of
+                // suspension - enclosing finally blocks run first (and may yield or override)
+                if !vm.inject_return(self, value.clone()) {
+                    gen_state.borrow_mut().status = GeneratorStatus::Completed;
+                    self.env = saved_env;
+                    return Ok(builtins::create_generator_result(self, value, true));
+                }
             } else {
                 // Normal resume - set the sent value in the yield result register
                 if let Some(resume_reg) = yield_result_register {
@@ -4428,6 +4437,7 @@ impl Interpreter {
             delegated_iterator: None, // For yield* delegation
             is_async: false,          // Regular generator, not async
             throw_value: None,        // For generator.throw()
+            return_value: None,       // For generator.return()
         };
 
         // Create the generator object with a guard
@@ -4471,6 +4481,7 @@ impl Interpreter {
             delegated_iterator: None, // For yield* delegation
             is_async: true,           // Async generator - next() returns Promise
             throw_value: None,        // For generator.throw()
+            return_value: None,       // For generator.return()
         };
 
         // Create the generator object with a guard
